@@ -95,6 +95,18 @@ func init() {
 			})
 			// bounds taken from the current source: v-1, v, v+1 of every integer literal (and the run-time powers
 			// of two), as a single part, as last part after 1-3 small parts, and as first part
+			// every code point of the sweep alphabet (all ASCII incl. controls, boundary and look-alike non-ASCII)
+			// inserted / substituted at every position of a few addresses
+			c.Space("code-point-sweep")
+			for _, seed := range []string{"1.2.3.4", "0x7f.1", "1.2.3", "16909060", "0377.0.0.1", "1.2.3.4.", "0XaB.0.1"} {
+				if !c.Mine() {
+					continue
+				}
+				enum.Edits(seed, sweepSigma, func(h string) {
+					one(c, "code-point-sweep", "http", h)
+					one(c, "code-point-sweep", "foo", h)
+				})
+			}
 			c.Space("source-derived-bounds")
 			_, ints := sourceLiterals()
 			for _, v := range ints {
@@ -291,6 +303,16 @@ func init() {
 						}
 					}
 				}
+			}
+			c.Space("code-point-sweep")
+			for _, seed := range []string{"[::1]", "[1:2:3:4:5:6:7:8]", "[a:B::c:D]", "[::ffff:1.2.3.4]", "[1::]", "[0:0:0:0:0:0:0:0]"} {
+				if !c.Mine() {
+					continue
+				}
+				enum.Edits(seed, sweepSigma, func(h string) {
+					one(c, "code-point-sweep", "http", h)
+					one(c, "code-point-sweep", "foo", h)
+				})
 			}
 			c.Space("source-derived-bounds")
 			_, ints := sourceLiterals()
